@@ -98,7 +98,7 @@ def parseTime (tok : String) : Option Nat := if tok.startsWith "@" then (tok.dro
 
 def optNat (s : String) : Option (Option Nat) := if s == "-" then some none else s.toNat?.map some
 
-def nested (a b : Name) : Bool := a.isPrefixOf b || b.isPrefixOf a
+def nested (a b : Name) : Bool := Spec.isPre a b || Spec.isPre b a
 
 /-- SPEC: the timeouts reported before the op (pre) -/
 def specPre (sp : SpecSt) (pre : List String) : SpecSt × List SpecFail := Id.run do
